@@ -134,6 +134,12 @@ func main() {
 		return
 	}
 
+	if *dump == "carried" {
+		lint.DumpCarried(prog, "pkg/")
+
+		return
+	}
+
 	if *dump == "atomicity" {
 		lint.DumpAtomicity(prog, "pkg/")
 
